@@ -74,6 +74,7 @@ def impl_mr(which, inst, tn, trefs):
         return refs_out(f(references=inst_refs, type_references=type_refs, type_nodes=type_nodes))
     except BaseException as e: return canon_err(e)
 
+_twin = [0]
 def impl_circular(ns_of, refs, tn):
     """ns_of: id -> namespace index (0/1); circular references of namespace 1 through a real UAGraph"""
     from opcua_tools.ua_graph import UAGraph
@@ -81,14 +82,17 @@ def impl_circular(ns_of, refs, tn):
     try:
         ids = sorted(ns_of)
         names = {n[0]: (n[1], n[2]) for n in tn}
-        nodes = pd.DataFrame({"id": pd.Series(ids, dtype="int64"),
-                              "NodeClass": [names.get(i, ("UAObject", "N%d" % i))[0] for i in ids],
-                              "BrowseName": [names.get(i, ("UAObject", "N%d" % i))[1] for i in ids],
-                              "NodeId": [UANodeId(ns_of[i], "i", str(i)) for i in ids],
-                              "ns": [ns_of[i] for i in ids]})
+        # every second graph also has a namespace whose URI differs from the queried one by a final slash only, listed BEFORE it (it holds one node of its own)
+        _twin[0] += 1; twin = _twin[0] % 2 == 1
+        at = (lambda k: 2 if k == 1 else k) if twin else (lambda k: k)
+        nodes = pd.DataFrame({"id": pd.Series(ids + ([max(ids) + 1] if twin else []), dtype="int64"),
+                              "NodeClass": [names.get(i, ("UAObject", "N%d" % i))[0] for i in ids] + (["UAObject"] if twin else []),
+                              "BrowseName": [names.get(i, ("UAObject", "N%d" % i))[1] for i in ids] + (["Twin"] if twin else []),
+                              "NodeId": [UANodeId(at(ns_of[i]), "i", str(i)) for i in ids] + ([UANodeId(1, "i", "1")] if twin else []),
+                              "ns": [at(ns_of[i]) for i in ids] + ([1] if twin else [])})
         _, rdf, _ = frames(tn, refs)
         nodes = vlib.relabel(nodes, 1)
-        g = UAGraph(nodes=nodes, references=rdf, namespaces=["http://opcfoundation.org/UA/", "urn:x"], models=[])
+        g = UAGraph(nodes=nodes, references=rdf, namespaces=["http://opcfoundation.org/UA/", "urn:x"] if not twin else ["http://opcfoundation.org/UA/", "urn:x/", "urn:x"], models=[])
         df = g.find_circular_reference_nodes("urn:x")
         return ["ok", sorted(int(n.value) for n in df["NodeId"])]
     except BaseException as e: return canon_err(e)
